@@ -52,6 +52,8 @@ fn main() {
     let histories: usize = args[2].parse().unwrap();
     let events: usize = args[3].parse().unwrap();
     let api = args.get(4).cloned().unwrap_or_else(|| "mixed".into());
+    // C20: also log a digest of the raw bytes of the whole <layers> directory after every event
+    let digests = std::env::var("VERIF_DIGESTS").is_ok();
     let scratch = PathBuf::from(std::env::var("VERIF_SCRATCH").unwrap_or_else(|_| "/dev/shm/verif-scratch".into()));
     std::fs::create_dir_all(&scratch).unwrap();
     let mut r = fastrand::Rng::with_seed(seed());
@@ -207,7 +209,12 @@ fn main() {
             let (l, rf) = snapshot(&refs);
             *per_action.entry(o.act.clone()).or_default() += 1;
             outcomes.insert(format!("{}|{}|{}|{}|{}", o.act, o.ret.kind, o.ret.cause, o.strat.k, o.mig.k));
-            let ev = json!({"obs": o, "L": l, "refs": rf, "history": h});
+            let mut ev = json!({"obs": o, "L": l, "refs": rf, "history": h});
+            if digests {
+                let snap = verif_harness::fsnap::snapshot(&layers_dir);
+                ev["raw"] = json!(format!("{:x}", snap.iter().fold(1469598103934665603u64, |hh, (k, n)| format!("{k}{n:?}").bytes().fold(hh, |a, b| (a ^ b as u64).wrapping_mul(1099511628211)))));
+                if let Some(dump) = std::env::var_os("VERIF_DUMP_AT") { if dump.to_string_lossy() == total.to_string() { ev["raw_full"] = json!(snap); } }
+            }
             if samples.len() < 4 && total % 97 == 13 {
                 samples.push(json!({"history": h, "act": o.act, "n": o.n, "ret": o.ret, "calls": o.calls}));
             }
